@@ -59,7 +59,7 @@ func leanStrList(xs []string) string {
 }
 
 func genInventory(c *ctx) (string, error) {
-	var mapRanges, loops, panicSites, globalWrites, sharedWrites []string
+	var mapRanges, mapRangeClasses, loops, panicSites, unguarded, globalWrites, sharedWrites []string
 	perMessageFresh := false
 	for _, suffix := range inventoryPkgs {
 		p := c.pkg(suffix)
@@ -117,12 +117,32 @@ func genInventory(c *ctx) (string, error) {
 						sharedWrites = append(sharedWrites, fn+": "+r.Name+": "+exprString(c, lhs))
 					}
 				}
-				ast.Inspect(fd.Body, func(n ast.Node) bool {
+				g := &guardCtx{c: c, info: p.TypesInfo}
+				// a site without a recognised guard is filed by package, kind and the *type* it operates on, so
+				// that moving it to another function or renaming its variables does not change its key
+				site := func(kind, text, guard string, on ast.Expr) {
+					if guard != "" {
+						panicSites = append(panicSites, fn+": "+kind+" "+text+"  [guard: "+guard+"]")
+					} else {
+						shape := ""
+						if on != nil {
+							if t := p.TypesInfo.TypeOf(on); t != nil {
+								shape = types.TypeString(t, func(q *types.Package) string { return q.Name() })
+							}
+						} else {
+							shape = "in " + funcName(fd)
+						}
+						panicSites = append(panicSites, fn+": "+kind+" "+text+"  [unguarded: "+pkgShort+": "+kind+" "+shape+"]")
+						unguarded = append(unguarded, pkgShort+": "+kind+" "+shape)
+					}
+				}
+				walkStack(fd.Body, func(n ast.Node, stack []ast.Node) {
 					switch x := n.(type) {
 					case *ast.RangeStmt:
 						if t := p.TypesInfo.TypeOf(x.X); t != nil {
 							if _, ok := t.Underlying().(*types.Map); ok {
 								mapRanges = append(mapRanges, fn+": "+exprString(c, x.X))
+								mapRangeClasses = append(mapRangeClasses, fn+": "+exprString(c, x.X)+": "+g.classifyMapRange(x, fd.Body))
 							}
 						}
 					case *ast.ForStmt:
@@ -137,22 +157,22 @@ func genInventory(c *ctx) (string, error) {
 								if _, isType := p.TypesInfo.Types[x.X]; isType && p.TypesInfo.Types[x.X].IsType() {
 									break
 								}
-								panicSites = append(panicSites, fn+": index "+exprString(c, x))
+								site("index", exprString(c, x), g.guardOfIndex(x, stack, fd), x.X)
 							}
 						}
 					case *ast.SliceExpr:
-						panicSites = append(panicSites, fn+": slice "+exprString(c, x))
+						site("slice", exprString(c, x), g.guardOfSlice(x, stack), x.X)
 					case *ast.StarExpr:
 						if tv, ok := p.TypesInfo.Types[x]; ok && !tv.IsType() {
-							panicSites = append(panicSites, fn+": deref "+exprString(c, x))
+							site("deref", exprString(c, x), g.guardOfDeref(x, stack), x.X)
 						}
 					case *ast.TypeAssertExpr:
-						if x.Type != nil {
-							panicSites = append(panicSites, fn+": assert "+exprString(c, x))
+						if x.Type != nil && !commaOk(x, stack) {
+							site("assert", exprString(c, x), "", x.X)
 						}
 					case *ast.CallExpr:
 						if id, ok := x.Fun.(*ast.Ident); ok && id.Name == "panic" {
-							panicSites = append(panicSites, fn+": panic")
+							site("panic", "", "", nil)
 						}
 						if fn == "gtfs.ParseRealtime" {
 							if sel, ok := x.Fun.(*ast.SelectorExpr); ok && sel.Sel.Name == "ForMessage" {
@@ -161,7 +181,7 @@ func genInventory(c *ctx) (string, error) {
 						}
 					case *ast.AssignStmt:
 						if x.Tok == token.DEFINE {
-							return true
+							return
 						}
 						for _, l := range x.Lhs {
 							recordWrite(l)
@@ -169,7 +189,6 @@ func genInventory(c *ctx) (string, error) {
 					case *ast.IncDecStmt:
 						recordWrite(x.X)
 					}
-					return true
 				})
 			}
 		}
@@ -177,32 +196,28 @@ func genInventory(c *ctx) (string, error) {
 	// a comma-ok type assertion is not a panic site: drop `x, ok := e.(T)` forms (they appear as
 	// assert entries whose parent is a two-valued assignment); handled by text: keep all, the
 	// discharged table lists them with their guard.
-	for _, l := range []*[]string{&mapRanges, &loops, &panicSites, &globalWrites, &sharedWrites} {
+	for _, l := range []*[]string{&mapRanges, &mapRangeClasses, &loops, &panicSites, &unguarded, &globalWrites, &sharedWrites} {
 		sort.Strings(*l)
 		*l = dedup(*l)
 	}
 	var sb strings.Builder
 	sb.WriteString("namespace Gtfs.Gen.Inventory\n\n")
 	fmt.Fprintf(&sb, "/-- every `range` over a map, as \"pkg.func: operand\" -/\ndef mapRanges : List String := %s\n\n", leanStrListNL(mapRanges))
+	fmt.Fprintf(&sb, "/-- the same sites with the extractor's structural classification: `independent` (each iteration touches only its own entry), `collect-then-sort` (the body only appends to slices that are sorted afterwards in the same function), or `unclassified: why` -/\ndef mapRangeClasses : List String := %s\n\n", leanStrListNL(mapRangeClasses))
+	var unclassified []string
+	for _, m := range mapRangeClasses {
+		if strings.Contains(m, ": unclassified") {
+			unclassified = append(unclassified, m)
+		}
+	}
+	fmt.Fprintf(&sb, "/-- range-over-map sites whose order-insensitivity the extractor could not establish structurally -/\ndef mapRangesUnclassified : List String := %s\n\n", leanStrListNL(unclassified))
 	fmt.Fprintf(&sb, "/-- every `for` without a condition -/\ndef unboundedLoops : List String := %s\n\n", leanStrListNL(loops))
 	fmt.Fprintf(&sb, "/-- every expression that can panic on some value: index/slice on non-maps, explicit dereference, type assertion, panic call -/\ndef panicSites : List String := %s\n\n", leanStrListNL(panicSites))
 	fmt.Fprintf(&sb, "/-- every assignment whose target is (reached through) a package-level variable -/\ndef globalWrites : List String := %s\n\n", leanStrListNL(globalWrites))
 	fmt.Fprintf(&sb, "/-- in the parse entry points and the extension methods: assignments through a parameter or the receiver, as \"pkg.func: root: target\" -/\ndef sharedWrites : List String := %s\n\n", leanStrListNL(sharedWrites))
 	fmt.Fprintf(&sb, "/-- ParseRealtime asks a PerMessageExtension for a fresh instance per message -/\ndef parseRealtimeUsesForMessage : Bool := %v\n\n", perMessageFresh)
 	fmt.Fprintf(&sb, "/-- ParseRealtime re-points its options parameter to a local copy (`x := *opts; opts = &x`) before any assignment through it -/\ndef parseRealtimeWritesOnlyToCopy : Bool := %v\n\n", copiesOpts(c))
-	kinds := map[string]bool{}
-	for _, ps := range panicSites {
-		parts := strings.SplitN(ps, ": ", 2)
-		if len(parts) == 2 {
-			kinds[parts[0]+": "+strings.SplitN(parts[1], " ", 2)[0]] = true
-		}
-	}
-	var kl []string
-	for k := range kinds {
-		kl = append(kl, k)
-	}
-	sort.Strings(kl)
-	fmt.Fprintf(&sb, "/-- the panic-capable sites by function and kind -/\ndef panicSiteKinds : List String := %s\n\n", leanStrListNL(kl))
+	fmt.Fprintf(&sb, "/-- the panic-capable sites for which the extractor found no local guard (nil check, range index, sort comparator, checked length, constant index into an array), by function and kind: these are discharged by hand -/\ndef panicSiteKinds : List String := %s\n\n", leanStrListNL(unguarded))
 	sb.WriteString("end Gtfs.Gen.Inventory\n")
 	return sb.String(), nil
 }
